@@ -653,6 +653,45 @@ func checkC20(c *Ctx, r *Report) {
 		}
 	}
 
+	// ---- R7: logout wins. GetSession looks a session up and, near its expiry, stores an extended copy back: two steps on
+	// the session map. A Destroy (logout) between them would be undone by the write-back — the logged-out id is live
+	// again for a full lifetime. Lookup, write-back and the delete of Destroy run under one common lock.
+	{
+		const authPkg = "reservoir/webserver/auth"
+		var common lset
+		nOps := 0
+		note := func(in ssa.Instruction) {
+			nOps++
+			held := li.HeldMust(in)
+			if common == nil {
+				common = held.clone()
+			} else {
+				common = inter(common, held)
+			}
+		}
+		for _, f := range c.FuncsNamed(authPkg + ".GetSession") {
+			eachCall(f, func(call ssa.CallInstruction, n string) {
+				if strings.HasSuffix(n, "syncmap.SyncMap).Get") || strings.HasSuffix(n, "syncmap.SyncMap).Set") {
+					note(call.(ssa.Instruction))
+				}
+			})
+		}
+		for _, f := range c.FuncsNamed("(*" + authPkg + ".Session).Destroy") {
+			eachCall(f, func(call ssa.CallInstruction, n string) {
+				if strings.HasSuffix(n, "syncmap.SyncMap).Delete") {
+					note(call.(ssa.Instruction))
+				}
+			})
+		}
+		// the SyncMap's own lock is taken and released inside each method: it does not span two calls
+		for k := range common {
+			if strings.Contains(string(k), "syncmap.SyncMap") {
+				delete(common, k)
+			}
+		}
+		r.Check(nOps >= 3 && len(common) > 0, "C20.R7", "session lookup + extension and logout exclude each other", "-", fmt.Sprintf("%d session-map operations under the common lock(s) %s", nOps, common), fmt.Sprintf("GetSession reads a session and writes an extended copy back in two separate steps (%d map operations, no common lock %s): a logout that lands between them is undone, the logged-out session id is valid for another lifetime", nOps, common))
+	}
+
 	// ---- R6
 	for _, f := range c.FuncsNamed("reservoir/webserver/middleware.Harden") {
 		for _, cl := range f.AnonFuncs {
